@@ -271,6 +271,51 @@ def transport_class():
     return _TCLS
 
 
+SUITES = {
+    None: None,
+    "gcm128": (("aes128-gcm@openssh.com",), None),
+    "gcm256": (("aes256-gcm@openssh.com",), None),
+    "cbc-etm": (("aes128-cbc",), ("hmac-sha2-256-etm@openssh.com",)),
+    "ctr-sha512": (("aes256-ctr",), ("hmac-sha2-512",)),
+}
+
+_MCLS = {}
+
+
+def marker_class(base, pos):
+    """`base` whose KEXINITs carry the kex-strict name at another place of the kex_algorithms list
+    ("first": index 0; "mid": index 1, ahead of a real algorithm).  Its position is not significant."""
+    key = (base, pos)
+    if key not in _MCLS:
+        from paramiko.message import Message
+        from paramiko.common import cMSG_KEXINIT
+
+        class Moved(base):
+            def _send_message(self, data):
+                raw = data.asbytes()
+                if raw[:1] == cMSG_KEXINIT:
+                    m = Message(raw[1:])
+                    cookie = m.get_bytes(16)
+                    kex = m.get_list()
+                    rest = m.get_remainder()
+                    mk = [a for a in kex if a.startswith("kex-strict-")]
+                    if mk:
+                        kex = [a for a in kex if not a.startswith("kex-strict-")]
+                        kex[(0 if pos == "first" else 1):0] = mk
+                        m2 = Message()
+                        m2.add_byte(cMSG_KEXINIT)
+                        m2.add_bytes(cookie)
+                        m2.add_list(kex)
+                        m2.add_bytes(rest)
+                        # what the exchange hash is computed over
+                        self.local_kex_init = self._latest_kex_init = m2.asbytes()
+                        data = m2
+                return super()._send_message(data)
+
+        _MCLS[key] = Moved
+    return _MCLS[key]
+
+
 def exc_class(t):
     """Canonical outcome class of one transport (see Model/C09.v `status`)."""
     from paramiko.ssh_exception import MessageOrderError, SSHException
@@ -310,7 +355,7 @@ def quiesce(wire, ends, transports, extra_busy=lambda: False, limit=60.0):
 
 
 def run_real(ctx_repo, kex_name, strict_c, strict_s, script, do_auth=True, do_rekey=0, ext_info=True,
-             once_c=False, once_s=False):
+             once_c=False, once_s=False, suite=None, mpos_c=None, mpos_s=None):
     """Run one scenario on the real code; returns the observation dict."""
     import paramiko
     Recorder = make_recorder()
@@ -319,8 +364,13 @@ def run_real(ctx_repo, kex_name, strict_c, strict_s, script, do_auth=True, do_re
     wire = Wire(script)
     ec, es = End(wire, "c2s"), End(wire, "s2c")
     ec.mate, es.mate = es, ec
-    tc = (Once if once_c else T)(ec, strict_kex=strict_c, packetizer_class=Recorder)
-    ts = (Once if once_s else T)(es, strict_kex=strict_s, packetizer_class=Recorder, server_sig_algs=ext_info)
+    Tc, Ts = (Once if once_c else T), (Once if once_s else T)
+    if mpos_c:
+        Tc = marker_class(Tc, mpos_c)
+    if mpos_s:
+        Ts = marker_class(Ts, mpos_s)
+    tc = Tc(ec, strict_kex=strict_c, packetizer_class=Recorder)
+    ts = Ts(es, strict_kex=strict_s, packetizer_class=Recorder, server_sig_algs=ext_info)
     obs = {}
     try:
         ts.add_server_key(host_key(ctx_repo))
@@ -329,13 +379,26 @@ def run_real(ctx_repo, kex_name, strict_c, strict_s, script, do_auth=True, do_re
             pack = ModulusPack()
             pack.pack = {2048: [(2, GROUP14_P)]}
             ts._modulus_pack = pack
-        tc.get_security_options().kex = (kex_name,)
-        ts.get_security_options().kex = (kex_name,)
+        kexes = (kex_name,)
+        if mpos_c == "mid" or mpos_s == "mid":
+            # a second real algorithm so that the moved name is followed by one
+            kexes = (kex_name, [k for k in ("diffie-hellman-group14-sha1", "diffie-hellman-group14-sha256")
+                                if k != kex_name][0])
+        tc.get_security_options().kex = kexes
+        ts.get_security_options().kex = kexes
+        if SUITES.get(suite):
+            ciphers, macs = SUITES[suite]
+            for t_ in (tc, ts):
+                t_.get_security_options().ciphers = ciphers
+                if macs:
+                    t_.get_security_options().digests = macs
+        obs["cipher"] = None
         evc, evs = threading.Event(), threading.Event()
         ts.start_server(event=evs, server=server_interface())
         tc.start_client(event=evc)
         ok = quiesce(wire, (ec, es), (tc, ts))
         obs["settled1"] = ok
+        agreed1 = {"c": bool(tc.agreed_on_strict_kex), "s": bool(ts.agreed_on_strict_kex)}
         phase = 1
         if ok and tc.active and ts.active and tc.initial_kex_done and ts.initial_kex_done and do_auth:
             phase = 2
@@ -385,6 +448,7 @@ def run_real(ctx_repo, kex_name, strict_c, strict_s, script, do_auth=True, do_re
                     th2.join(0.5 if obs["settled3"] else 30.0)
                     obs["ping"] = bool(tc.packetizer.rx and tc.packetizer.rx[-1][0] == 82)
         obs["phase"] = phase
+        obs["cipher"] = (getattr(tc, "local_cipher", None), getattr(tc, "local_mac", None))
         for name, t, e in (("c", tc, ec), ("s", ts, es)):
             p = t.packetizer
             obs[name] = {
@@ -392,7 +456,7 @@ def run_real(ctx_repo, kex_name, strict_c, strict_s, script, do_auth=True, do_re
                 "exc": type(t.__dict__.get("first_exc")).__name__ if "first_exc" in t.__dict__ else None,
                 "msg": str(t.__dict__.get("first_exc"))[:100] if "first_exc" in t.__dict__ else None,
                 "done": bool(t.initial_kex_done),
-                "agreed": bool(t.agreed_on_strict_kex),
+                "agreed": bool(t.agreed_on_strict_kex), "agreed1": agreed1[name],
                 "rx": list(p.rx), "tx": list(p.tx), "seqs": p.seqs(),
                 "relay": list(e.log),
             }
@@ -474,17 +538,18 @@ def oracle(ctx, sc, obs):
     """The property stated over the real code's observable behaviour."""
     case = {"kex": sc["kex"], "strict_c": sc["strict_c"], "strict_s": sc["strict_s"], "rekey": int(sc["rekey"]),
             "once_c": bool(sc.get("once_c")), "once_s": bool(sc.get("once_s")),
+            "suite": sc.get("suite"), "mpos_c": sc.get("mpos_c"), "mpos_s": sc.get("mpos_s"),
             "script": [[d, i, list(op)] for (d, i), ops in sorted(sc["script"].items()) for op in ops]}
     both = sc["strict_c"] and sc["strict_s"]
     for me, other in (("c", "s"), ("s", "c")):
         d = obs[me]
         o = obs[other]
         rx, tx = d["rx"], d["tx"]
-        if both and rx and rx[0][0] == KEXINIT and rx[0][1] == 0 and not d["agreed"] and d["status"] in (0, 5) \
-                and not (d["done"] and sc["rekey"]):
+        if both and rx and rx[0][0] == KEXINIT and rx[0][1] == 0 and not d.get("agreed1", d["agreed"]) \
+                and (d["done"] or d["status"] in (0, 5)):
             ctx.fail("strict-not-agreed", "both sides advertise strict kex but it was not agreed", case=case,
                      observed=d)
-        if both and not sc["script"] and d["done"] and not d["agreed"]:
+        if both and not sc["script"] and d["done"] and d.get("agreed1") and not d["agreed"]:
             ctx.fail("strict-not-sticky", "strict kex was agreed in the initial exchange but the flag is off "
                      "after a re-key (a re-key KEXINIT need not repeat the kex-strict name)", case=case,
                      expected="agreed_on_strict_kex stays True", observed=d)
@@ -539,6 +604,10 @@ def oracle(ctx, sc, obs):
                     ctx.fail("shifted-session", "strict kex agreed on both sides, yet the packets accepted "
                              "after NEWKEYS are not the sender's packets in order under the sender's sequence "
                              "numbers", case=case, expected=theirs, observed=mine)
+    if sc.get("suite") and SUITES.get(sc["suite"]) and obs["c"]["done"] \
+            and (obs.get("cipher") or (None,))[0] != SUITES[sc["suite"]][0][0]:
+        ctx.fail("suite-not-negotiated", "the requested cipher suite was not negotiated", case=case,
+                 expected=SUITES[sc["suite"]], observed=obs.get("cipher"))
     if not sc["script"]:
         if not obs.get("authed"):
             ctx.fail("clean-handshake-fails", "an unmodified handshake + authentication does not complete",
@@ -555,9 +624,11 @@ def build_scenarios(ctx, kex_names):
     rng = ctx.rng
     scs = []
 
-    def add(kex, sc_, ss_, script, rekey=0, kind="inject", once_c=False, once_s=False):
+    def add(kex, sc_, ss_, script, rekey=0, kind="inject", once_c=False, once_s=False, suite=None,
+            mpos_c=None, mpos_s=None):
         scs.append({"kex": kex, "strict_c": sc_, "strict_s": ss_, "script": script, "rekey": int(rekey),
-                    "kind": kind, "once_c": once_c, "once_s": once_s})
+                    "kind": kind, "once_c": once_c, "once_s": once_s, "suite": suite,
+                    "mpos_c": mpos_c, "mpos_s": mpos_s})
 
     types = [IGNORE, DEBUG_, UNIMPL, UNKNOWN, 1, KEXINIT]
     for n, kex in enumerate(kex_names):
@@ -577,6 +648,27 @@ def build_scenarios(ctx, kex_names):
         if full:
             add(kex, False, False, {}, rekey=2, kind="rekey-no-marker", once_c=True, once_s=True)
             add(kex, True, True, {}, rekey=2, kind="clean")
+            nk_s, nk_c = st["s2c"].index(21), st["c2s"].index(21)
+            # other cipher suites: AEAD (no MAC engine, the Transport passes mac_engine=None), CBC with an
+            # encrypt-then-MAC, another CTR/HMAC pair.  Strict peers only for AEAD: GCM does not feed the
+            # sequence number into the crypto, so the model's MAC premise says nothing about non-strict GCM.
+            for suite in ("gcm128", "gcm256", "cbc-etm", "ctr-sha512"):
+                add(kex, True, True, {}, rekey=2, kind="suite-" + suite, suite=suite)
+                add(kex, True, True, {("s2c", nk_s): [("inject", IGNORE)]}, kind="suite-" + suite, suite=suite)
+                if ctx.thorough or suite == "gcm128":
+                    add(kex, True, True, {("c2s", nk_c): [("inject", DEBUG_)]}, kind="suite-" + suite, suite=suite)
+                if not suite.startswith("gcm"):
+                    add(kex, False, False, {("s2c", nk_s): [("inject", IGNORE)]}, kind="suite-" + suite, suite=suite)
+            # the kex-strict name first / in the middle of the peer's kex_algorithms list
+            for pos in ("first", "mid"):
+                for mc_, ms_ in ((pos, None), (None, pos), (pos, pos)):
+                    add(kex, True, True, {}, rekey=1, kind="marker-" + pos, mpos_c=mc_, mpos_s=ms_)
+                    if mc_ and ms_ and not ctx.thorough:
+                        continue
+                    add(kex, True, True, {("c2s", 1): [("inject", IGNORE)]}, kind="marker-" + pos,
+                        mpos_c=mc_, mpos_s=ms_)
+                    add(kex, True, True, {("s2c", 1): [("inject", DEBUG_)]}, kind="marker-" + pos,
+                        mpos_c=mc_, mpos_s=ms_)
         # every handshake position x every injected type x both directions
         for sc_, ss_ in configs:
             for d in ("c2s", "s2c"):
@@ -629,7 +721,8 @@ def run(ctx):
                 "injected before NEWKEYS + first encrypted packet deleted); seeded random multi-edit scripts; "
                 "clean handshakes with authentication and one or two re-keys, also against a peer that (like "
                 "OpenSSH) repeats its kex-strict name only in the initial KEXINIT (either role, both), followed "
-                "by a global request that must be answered. Every case is a full real client/server "
+                "by a global request that must be answered; AEAD (aes128/256-gcm), CBC+EtM and another CTR/HMAC suite; peers "
+                "that put the kex-strict name first / in the middle of their kex_algorithms list (either role, both). Every case is a full real client/server "
                 "handshake; a case is non-trivial when its script is non-empty or it includes a re-key")
     ctx.trusted += ["gen/c09.py (AST + live-object translator of message numbers, kex engine tables, strict-kex "
                     "call sites and reset statements; fail-closed)",
@@ -658,14 +751,16 @@ def run(ctx):
     exact, coarse = [], []
     for sc in scs:
         obs = run_real(ctx.repo, sc["kex"], sc["strict_c"], sc["strict_s"], sc["script"],
-                       do_auth=True, do_rekey=sc["rekey"], once_c=sc["once_c"], once_s=sc["once_s"])
+                       do_auth=True, do_rekey=sc["rekey"], once_c=sc["once_c"], once_s=sc["once_s"],
+                       suite=sc["suite"], mpos_c=sc["mpos_c"], mpos_s=sc["mpos_s"])
         if not all(obs.get(k, True) for k in ("settled1", "settled2", "settled3")) or obs.get("auth_hang"):
             # retry once before believing anything timing dependent
             obs = run_real(ctx.repo, sc["kex"], sc["strict_c"], sc["strict_s"], sc["script"],
-                           do_auth=True, do_rekey=sc["rekey"], once_c=sc["once_c"], once_s=sc["once_s"])
+                           do_auth=True, do_rekey=sc["rekey"], once_c=sc["once_c"], once_s=sc["once_s"],
+                       suite=sc["suite"], mpos_c=sc["mpos_c"], mpos_s=sc["mpos_s"])
         case = oracle(ctx, sc, obs)
         ctx.count((sc["kex"], sc["strict_c"], sc["strict_s"], sorted(sc["script"].items()), sc["rekey"],
-                   sc["once_c"], sc["once_s"]),
+                   sc["once_c"], sc["once_s"], sc["suite"], sc["mpos_c"], sc["mpos_s"]),
                   nontrivial=bool(sc["script"]) or sc["rekey"], kind=sc["kind"])
         if post_newkeys_edit(sc) or injects_newkeys(sc):
             coarse.append((sc, obs, case))
@@ -771,9 +866,11 @@ def replay(ctx, rep):
         script.setdefault((d, i), []).append(tuple(op))
     sc = {"kex": case["kex"], "strict_c": case["strict_c"], "strict_s": case["strict_s"], "script": script,
           "rekey": int(case.get("rekey", 0)), "kind": "replay", "once_c": bool(case.get("once_c")),
-          "once_s": bool(case.get("once_s"))}
+          "once_s": bool(case.get("once_s")), "suite": case.get("suite"), "mpos_c": case.get("mpos_c"),
+          "mpos_s": case.get("mpos_s")}
     obs = run_real(ctx.repo, sc["kex"], sc["strict_c"], sc["strict_s"], script, do_auth=True, do_rekey=sc["rekey"],
-                   once_c=sc["once_c"], once_s=sc["once_s"])
+                   once_c=sc["once_c"], once_s=sc["once_s"], suite=sc["suite"], mpos_c=sc["mpos_c"],
+                   mpos_s=sc["mpos_s"])
     ctx.count(("replay", repr(case)))
     ctx.count(("replay2", repr(case)))
     oracle(ctx, sc, obs)
